@@ -30,4 +30,66 @@ theorem sliceFrom_ok (d : Bytes) (a : Nat) (h : a ≤ d.length) : sliceFrom d (a
   unfold sliceFrom
   rw [len_eq, slice_ok d a d.length h (Nat.le_refl _), List.take_of_length_le (by simp)]
 
+theorem slice_int (d : Bytes) (lo hi : Int) (h : 0 ≤ lo ∧ lo ≤ hi ∧ hi ≤ (d.length : Int)) :
+    slice d lo hi = X.ok ((d.drop lo.toNat).take (hi.toNat - lo.toNat)) := by
+  unfold slice; rw [if_pos h]
+
+theorem idx_int (d : Bytes) (i : Int) (h0 : 0 ≤ i) (h1 : i.toNat < d.length) : idx d i = X.ok d[i.toNat] := by
+  unfold idx; simp [h0, h1]
+
+theorem setIdx_ok (b : Bytes) (i : Nat) (v : Byte) (h : i < b.length) : setIdx b (i : Int) v = X.ok (b.set i v) := by
+  unfold setIdx
+  have : (0 : Int) ≤ (i : Int) ∧ (i : Int) < (b.length : Int) := by omega
+  rw [if_pos this]; simp
+
+theorem make_ok (n : Nat) : make (n : Int) = X.ok (List.replicate n 0) := by
+  unfold make; simp
+
+/-- the value `binary.BigEndian.Uint16` reads -/
+theorem u16_cons (a c : Byte) (r : Bytes) : ∃ w : UInt16, u16 (a :: c :: r) = X.ok w ∧ w.toNat = a.toNat * 256 + c.toNat := by
+  refine ⟨_, rfl, ?_⟩
+  have ha := a.toNat_lt
+  have hc := c.toNat_lt
+  simp only [UInt16.toNat_or, UInt16.toNat_shiftLeft, UInt8.toNat_toUInt16]
+  rw [show (8 : UInt16).toNat % 16 = 8 by decide, Nat.shiftLeft_eq, Nat.mod_eq_of_lt (by omega)]
+  rw [show a.toNat * 2 ^ 8 = a.toNat <<< 8 by rw [Nat.shiftLeft_eq], ← Nat.shiftLeft_add_eq_or_of_lt (by omega), Nat.shiftLeft_eq]
+
+theorem u16_two (b : Bytes) (h : b.length = 2) : ∃ w : UInt16, u16 b = X.ok w ∧ w.toNat = beN b := by
+  match b, h with
+  | [a, c], _ =>
+    obtain ⟨w, h1, h2⟩ := u16_cons a c []
+    exact ⟨w, h1, by simp [h2, beN]⟩
+
+/-! ### the bit fields of the property word -/
+theorem b14 (w : UInt16) : ((w >>> 14) &&& 1).toUInt8.toNat = w.toNat / 16384 % 2 := by
+  have := w.toNat_lt
+  simp only [UInt16.toNat_toUInt8, UInt16.toNat_and, UInt16.toNat_shiftRight, Nat.shiftRight_eq_div_pow]
+  rw [show (14 : UInt16).toNat % 16 = 14 by decide, show (1 : UInt16).toNat = 1 by decide, Nat.and_one_is_mod]
+  omega
+theorem b13 (w : UInt16) : ((w >>> 13) &&& 1).toUInt8.toNat = w.toNat / 8192 % 2 := by
+  have := w.toNat_lt
+  simp only [UInt16.toNat_toUInt8, UInt16.toNat_and, UInt16.toNat_shiftRight, Nat.shiftRight_eq_div_pow]
+  rw [show (13 : UInt16).toNat % 16 = 13 by decide, show (1 : UInt16).toNat = 1 by decide, Nat.and_one_is_mod]
+  omega
+theorem b10 (w : UInt16) : ((w &&& 1024) >>> 10).toUInt8.toNat = w.toNat / 1024 % 2 := by
+  have := w.toNat_lt
+  simp only [UInt16.toNat_toUInt8, UInt16.toNat_and, UInt16.toNat_shiftRight]
+  rw [show (10 : UInt16).toNat % 16 = 10 by decide, show (1024 : UInt16).toNat = 1024 by decide, Nat.shiftRight_and_distrib,
+    show 1024 >>> 10 = 1 by decide, Nat.and_one_is_mod, Nat.shiftRight_eq_div_pow]
+  omega
+theorem b0 (w : UInt16) : (w &&& 1023).toNat = w.toNat % 1024 := by
+  simp only [UInt16.toNat_and]
+  rw [show (1023 : UInt16).toNat = 2 ^ 10 - 1 by decide, Nat.and_two_pow_sub_one_eq_mod]
+
+theorem b15 (w : UInt16) : (w &&& 32768).toUInt8 = 0 := by
+  apply UInt8.toNat_inj.mp
+  rw [UInt16.toNat_toUInt8, UInt16.toNat_and, show (32768 : UInt16).toNat = 2 ^ 15 by decide]
+  apply Nat.eq_of_testBit_eq; intro i
+  rw [Nat.testBit_mod_two_pow, Nat.testBit_and, Nat.testBit_two_pow]
+  by_cases h : i < 8
+  · have : ¬ (15 = i) := by omega
+    simp [this]
+  · simp [h]
+
+
 end JT.Go
